@@ -38,6 +38,17 @@ CLAIMED = {
         "form (value-tested).",
    technique="Lean 4 proof of an executable loop-nest + metafunction model; symbolic-scalar correspondence with the real templates",
    design="§4 C03"),
+ "C02": dict(
+   text="Machine-checked proof (Lean 4): for every expression tree over {tensor, scalar, +, -, *, unary minus}, every width V=2^e and every size n, the "
+        "vector evaluator is the scalar evaluator lane by lane (structural induction: Fastor.C02.lanes_of_evalV) and the assignment loop of "
+        "trivial_assign / _add / _sub / _mul (vector body over ROUND_DOWN(n,V), scalar tail) leaves op(dst p, scalar evaluation at p) at every p < n "
+        "and writes nothing else (Fastor.C02.assign_correct / assign_memory). Tied to /repo by assigning seeded random expression trees to real "
+        "tensors over the symbolic scalar (values, store order, read sets, aligned-access count, width) and by bit-exact value runs of float, double, "
+        "int32, int64 (incl. division, sqrt, abs, IEEE specials, integer boundary values) against the same generic lambda evaluated on scalars.",
+   note="Proved relative to C08 (vector primitives are lane-wise by definition in the model). Division, math functions, comparisons / logical ops and "
+        "the reciprocal-multiply form are value-tested only. Real-type runs use -ffp-contract=off; integer references wrap around.",
+   technique="Lean 4 proof (structural induction + loop tiling) of an executable evaluator model; symbolic and bit-exact correspondence",
+   design="§4 C02"),
 }
 
 NOT_YET = {}
